@@ -339,6 +339,11 @@ Fixpoint as_num_loop (fuel : nat) (k : numkind) (pj : pjson) (a : cont) (acc : l
           end in
         do x <- res;
         as_num_loop f k pj {| c_len := c_len a; c_off := off + 1 |} (x :: acc)
+    else if t_is tag TagNop then
+      (* deleted elements: skip to the next live entry (fix F15) *)
+      let skip := Z.of_N (word_val w) in
+      if skip <=? 0 then Err
+      else as_num_loop f k pj {| c_len := c_len a; c_off := off + (skip - 1) |} acc
     else Err
   end.
 Definition as_num (k : numkind) (pj : pjson) (a : cont) : outcome (list Z) :=
